@@ -1,0 +1,85 @@
+//! Accessors used only by the external verification harness (`--cfg melstf_verif`).
+//! Nothing in here is compiled into normal builds.
+use crate::{CoinMapping, SealedState, SmtMapping, UnsealedState};
+use melstructs::{
+    BlockHeight, CoinDataHeight, CoinID, CoinValue, Header, NetID, PoolKey, PoolState,
+};
+use novasmt::ContentAddrStore;
+use tip911_stakeset::StakeSet;
+
+/// Places a state at an arbitrary height / fee configuration without sealing every block in between.
+#[allow(clippy::too_many_arguments)]
+pub fn fabricate<C: ContentAddrStore>(
+    st: &mut UnsealedState<C>,
+    network: NetID,
+    height: u64,
+    fee_pool: u128,
+    tips: u128,
+    fee_multiplier: u128,
+    dosc_speed: u128,
+) {
+    st.network = network;
+    st.height = BlockHeight(height);
+    st.fee_pool = CoinValue(fee_pool);
+    st.tips = CoinValue(tips);
+    st.fee_multiplier = fee_multiplier;
+    st.dosc_speed = dosc_speed;
+}
+
+pub fn tips<C: ContentAddrStore>(st: &UnsealedState<C>) -> u128 {
+    st.tips.0
+}
+pub fn fee_pool<C: ContentAddrStore>(st: &UnsealedState<C>) -> u128 {
+    st.fee_pool.0
+}
+pub fn fee_multiplier<C: ContentAddrStore>(st: &UnsealedState<C>) -> u128 {
+    st.fee_multiplier
+}
+pub fn dosc_speed<C: ContentAddrStore>(st: &UnsealedState<C>) -> u128 {
+    st.dosc_speed
+}
+pub fn height<C: ContentAddrStore>(st: &UnsealedState<C>) -> u64 {
+    st.height.0
+}
+pub fn stakes<C: ContentAddrStore>(st: &UnsealedState<C>) -> &StakeSet {
+    &st.stakes
+}
+pub fn stakes_mut<C: ContentAddrStore>(st: &mut UnsealedState<C>) -> &mut StakeSet {
+    &mut st.stakes
+}
+pub fn coins<C: ContentAddrStore>(st: &UnsealedState<C>) -> &CoinMapping<C> {
+    &st.coins
+}
+pub fn coins_mut<C: ContentAddrStore>(st: &mut UnsealedState<C>) -> &mut CoinMapping<C> {
+    &mut st.coins
+}
+pub fn pools<C: ContentAddrStore>(st: &UnsealedState<C>) -> &SmtMapping<C, PoolKey, PoolState> {
+    &st.pools
+}
+pub fn pools_mut<C: ContentAddrStore>(
+    st: &mut UnsealedState<C>,
+) -> &mut SmtMapping<C, PoolKey, PoolState> {
+    &mut st.pools
+}
+pub fn history_mut<C: ContentAddrStore>(
+    st: &mut UnsealedState<C>,
+) -> &mut SmtMapping<C, BlockHeight, Header> {
+    &mut st.history
+}
+pub fn insert_coin<C: ContentAddrStore>(st: &mut UnsealedState<C>, id: CoinID, cdh: CoinDataHeight) {
+    let t = st.tip_906();
+    st.coins.insert_coin(id, cdh, t);
+}
+pub fn unsealed_of<C: ContentAddrStore>(s: &SealedState<C>) -> &UnsealedState<C> {
+    s.inner_unsealed()
+}
+pub fn tip_flags<C: ContentAddrStore>(st: &UnsealedState<C>) -> [bool; 6] {
+    [
+        st.tip_901(),
+        st.tip_902(),
+        st.tip_906(),
+        st.tip_908(),
+        st.tip_909(),
+        st.tip_909a(),
+    ]
+}
